@@ -243,7 +243,8 @@ class Spec:
             w[:3] *= self.h
             self.targets[k] = taa_T(w)
         self.targets.update(edge_targets(ref, self.h))
-        self.moves = {"B": MOVE_B, "I": (0.0,) * 6}
+        # "T": tilted 69 degrees off vertical (row/column mix-ups of the base rotation change sign only beyond 45 degrees)
+        self.moves = {"B": MOVE_B, "I": (0.0,) * 6, "T": (0.3, -0.2, 0.5, 1.2, 0.0, 0.0)}
         if seed:
             rng = np.random.default_rng(7000 + seed)
             # ONE generic in-workspace target and ONE generic base pose
